@@ -10,34 +10,12 @@ from mirsym.values import *
 from mirsym.explore import Panic
 from mirsym import models_typst as T
 from mirsym.models_std import STD, OStr, Str
+from mirsym import models_doc as D
 from mirsym.models_typst import Node, Source
 
 
 def _contracts():
-    c = STD
-    t = c.table
-
-    def arena_new(m, a, ci):
-        return Opaque('arena', ())
-    t['Arena::new'] = arena_new
-
-    def doc_deref(m, a, ci):
-        return m.load(a[0])
-    t['DocBuilder.Deref::deref'] = doc_deref
-
-    def doc_pretty(m, a, ci):
-        return Opaque('render', (m.load(a[0]) if isinstance(a[0], Ref) else a[0], a[1]))
-    t['Doc::pretty'] = doc_pretty
-
-    def prettyfmt_to_string(m, a, ci):
-        r = m.load(a[0])
-        return OStr(('render', r))
-    t['PrettyFmt.ToString::to_string'] = prettyfmt_to_string
-
-    def into_into(m, a, ci):
-        return a[0]
-    t['Into::into'] = into_into
-    return c
+    return STD
 
 
 def run(S, want_witness=True):
@@ -57,7 +35,7 @@ def run(S, want_witness=True):
             rec['printer'] = printer
             rec['ctx'] = a[1]
             rec['markup'] = a[2]
-            return Opaque('doc', (a[2].node.nid,))
+            return D.opaque_doc('doc', (a[2].node.nid,))
 
         def strip(m, a, ci):
             s = a[0]
@@ -85,7 +63,7 @@ def run(S, want_witness=True):
             return
         render = res.fields[0].term[1][1]
         doc, width = render.deps
-        ok_doc = isinstance(doc, Opaque) and doc.tag == 'doc' and doc.deps == (rec['root'].nid,)
+        ok_doc = isinstance(doc, D.Doc) and doc.k == 'opaque' and doc.a == 'doc' and doc.b == (rec['root'].nid,)
         ctx.must_hold(ok_doc, label + ': rendered doc is the converted root markup')
         ctx.must_hold(i_eq(width, cfg.get('max_width')), label + ': render width == config.max_width')
         p = rec.get('printer')
